@@ -186,16 +186,21 @@ func buildUniverse(M [32]byte) *universe {
 	ops := func(o ...refchain.Outpoint) []refchain.Outpoint { return o }
 	outs := func(o ...reftx.Out) []reftx.Out { return o }
 	// fee = inputs - outputs. Plain 1-in transactions are 61 (1 out) / 71 (2 outs) bytes.
-	t1 := u.add("T1", ops(U(1)), outs(o1(2e8), o1(3e8-10000)))       // fee 10000, 71 B
-	u.add("T1lo", ops(U(1)), outs(o1(5e8-5000)))                     // lower fee rate
-	u.add("T1eq", ops(U(1)), outs(o1(2e8+1), o1(3e8-10001)))         // same size, same fee as T1
-	u.add("T1hi", ops(U(1)), outs(o1(2e8+2), o1(3e8-60002)))         // fee 60000: beats T1 and its descendants
-	u.add("T1alt", ops(U(1)), outs(o1(5e8-7000)))                    // never submitted: only ever seen inside blocks
-	c1 := u.add("C1", ops(op(t1.id, 0)), outs(o1(2e8-10000)))        // child of T1
-	u.add("G", ops(op(c1.id, 0)), outs(o1(2e8-10000-50000)))         // grandchild, high fee (CPFP)
-	t2 := u.add("T2", ops(U(2)), outs(o1(2e8), o1(3e8-20000)))       // fee 20000
-	u.add("D", ops(op(t1.id, 1), op(t2.id, 0)), outs(o1(5e8-25000))) // diamond: T1:1 + T2:0, fee 15000
-	u.add("T2hi", ops(U(2)), outs(o1(5e8-100000)))                   // double spend of T2 paying more than T2 and 101 descendants together
+	t1 := u.add("T1", ops(U(1)), outs(o1(2e8), o1(3e8-10000)))                   // fee 10000, 71 B
+	u.add("T1lo", ops(U(1)), outs(o1(5e8-5000)))                                 // lower fee rate
+	u.add("T1eq", ops(U(1)), outs(o1(2e8+1), o1(3e8-10001)))                     // same size, same fee as T1
+	u.add("T1hi", ops(U(1)), outs(o1(2e8+2), o1(3e8-60002)))                     // fee 60000: beats T1 and its descendants
+	u.add("T1alt", ops(U(1)), outs(o1(5e8-7000)))                                // never submitted: only ever seen inside blocks
+	c1 := u.add("C1", ops(op(t1.id, 0)), outs(o1(2e8-10000)))                    // child of T1
+	u.add("G", ops(op(c1.id, 0)), outs(o1(2e8-10000-50000)))                     // grandchild, high fee (CPFP)
+	g2 := u.add("G2", ops(op(u.by["G"].id, 0)), outs(o1(2e8-10000-50000-10000))) // fourth member of the chain T1 <- C1 <- G <- G2
+	_ = g2
+	u.add("C1x", ops(op(t1.id, 0)), outs(o1(2e8-100000)))                   // replaces C1 (and G, G2): a middle member
+	u.add("Gx", ops(op(c1.id, 0)), outs(o1(2e8-10000-120000)))              // replaces G (and G2)
+	u.add("G2x", ops(op(u.by["G"].id, 0)), outs(o1(2e8-10000-50000-30000))) // replaces G2: the last member
+	t2 := u.add("T2", ops(U(2)), outs(o1(2e8), o1(3e8-20000)))              // fee 20000
+	u.add("D", ops(op(t1.id, 1), op(t2.id, 0)), outs(o1(5e8-25000)))        // diamond: T1:1 + T2:0, fee 15000
+	u.add("T2hi", ops(U(2)), outs(o1(5e8-100000)))                          // double spend of T2 paying more than T2 and 101 descendants together
 	prev, val := op(t2.id, 1), uint64(3e8-20000)
 	for i := 1; i <= nChain; i++ { // K1..K101: a chain of descendants of T2 (more than 100)
 		val -= 10000
@@ -511,6 +516,8 @@ func (w *world) enabled() []string {
 		switch {
 		case strings.HasPrefix(e, "mine:") && e != "mine:best":
 			ok = w.connectable(w.tip(), splitNames(e[5:]))
+		case strings.HasPrefix(e, "reload-cut:"):
+			ok = len(poolNames(w)) > 0
 		case e == "reorg2:":
 			ok = w.tip().Height > 104
 		case strings.HasPrefix(e, "reorg:"):
@@ -585,6 +592,121 @@ func (w *world) submit(via, name string) {
 	if strings.Contains(result, "NO_TXOU") {
 		w.res.Orphans = true
 	}
+}
+
+// reloadDamaged: MempoolSave, then the file is damaged the way an interrupted save or a bad
+// disk would (cut at a record-boundary class, or one byte changed where the loader must
+// notice), then MempoolLoad. client/main.go ignores the result of MempoolLoad, so what it
+// leaves behind IS the live pool: it must either return true with exactly the saved pool, or
+// return false and leave an empty pool; the history then goes on under the normal invariants.
+//
+// File layout (disk.go): 32 B block hash | CompactSize version | CompactSize count | count x
+// (CompactSize len, raw tx, 56 B) | CompactSize count | rejected records | "END_OF_FILE".
+func (w *world) reloadDamaged(name string) {
+	where := name[len("reload-cut:"):]
+	saved := poolNames(w)
+	txpool.TxMutex.Lock()
+	nrej := len(txpool.TransactionsRejected)
+	txpool.TxMutex.Unlock()
+	txpool.MempoolSave(false)
+	fn := common.GocoinHomeDir + txpool.MEMPOOL_FILE_NAME
+	b, err := os.ReadFile(fn)
+	if err != nil {
+		hfail("%v", err)
+	}
+	cs := func(p int) (uint64, int) { // CompactSize at p
+		switch b[p] {
+		case 0xfd:
+			return uint64(b[p+1]) | uint64(b[p+2])<<8, 3
+		case 0xfe:
+			return uint64(b[p+1]) | uint64(b[p+2])<<8 | uint64(b[p+3])<<16 | uint64(b[p+4])<<24, 5
+		case 0xff:
+			hfail("unexpected 8-byte CompactSize in %s", fn)
+		}
+		return uint64(b[p]), 1
+	}
+	p := 32
+	_, n := cs(p)
+	p += n
+	cntPos := p
+	cnt, n := cs(p)
+	p += n
+	if int(cnt) != len(saved) {
+		hfail("%s: %d pooled records, pool has %d", fn, cnt, len(saved))
+	}
+	firstStart, firstEnd := p, p
+	for i := 0; i < int(cnt); i++ {
+		l, n := cs(p)
+		p += n + int(l) + 56
+		if i == 0 {
+			firstEnd = p
+		}
+	}
+	rejPos := p // CompactSize count of the rejected section
+	if rc, _ := cs(rejPos); int(rc) != nrej || !bytes.HasSuffix(b, txpool.END_MARKER) {
+		hfail("%s: layout not understood (rejected count %d, expected %d)", fn, rc, nrej)
+	}
+	flip := func(pos int, mask byte) { b[pos] ^= mask }
+	switch where {
+	case "hdr": // ends inside the header
+		b = b[:20]
+	case "txmid": // ends inside the first pooled record
+		b = b[:(firstStart+firstEnd)/2]
+	case "tx1": // ends after the first pooled record
+		b = b[:firstEnd]
+	case "sections": // ends between the pooled and the rejected section
+		b = b[:rejPos]
+	case "tail5": // only the tail is missing (interrupted save)
+		b = b[:len(b)-5]
+	case "flip-hdr": // one changed byte in the block hash
+		flip(5, 0x40)
+	case "flip-cnt": // ... in the count of pooled records
+		flip(cntPos, 0x01)
+	case "flip-rejcnt": // ... in the count of rejected records
+		flip(rejPos, 0x01)
+	case "flip-end": // ... in the end marker
+		flip(len(b)-1, 0x20)
+	default:
+		hfail("unknown damage %q", where)
+	}
+	if err := os.WriteFile(fn, b, 0o600); err != nil {
+		hfail("%v", err)
+	}
+	ok := txpool.MempoolLoad()
+	w.step(name, fmt.Sprint("loaded=", ok))
+	after := poolNames(w)
+	if ok {
+		if len(after) != len(saved) {
+			vfail("damaged-reload/"+where+"/reported-success-with-a-different-pool", "after %s: MempoolLoad returned true, pool %v, saved pool was %v", name, keysOf(after), keysOf(saved))
+		}
+		for n := range saved {
+			if !after[n] {
+				vfail("damaged-reload/"+where+"/reported-success-with-a-different-pool", "after %s: MempoolLoad returned true, pool %v, saved pool was %v", name, keysOf(after), keysOf(saved))
+			}
+		}
+	} else {
+		txpool.TxMutex.Lock()
+		left := fmt.Sprintf("TransactionsToSend=%d SpentOutputs=%d TransactionsRejected=%d WaitingForInputs=%d RejectedSpentOutputs=%d FeePackages=%d size=%d weight=%d",
+			len(txpool.TransactionsToSend), len(txpool.SpentOutputs), len(txpool.TransactionsRejected), len(txpool.WaitingForInputs),
+			len(txpool.RejectedSpentOutputs), len(txpool.FeePackages), txpool.TransactionsToSendSize, txpool.TransactionsToSendWeight)
+		empty := len(txpool.TransactionsToSend) == 0 && len(txpool.SpentOutputs) == 0 && len(txpool.TransactionsRejected) == 0 &&
+			len(txpool.WaitingForInputs) == 0 && len(txpool.RejectedSpentOutputs) == 0 && len(txpool.FeePackages) == 0 &&
+			txpool.TransactionsToSendSize == 0 && txpool.TransactionsToSendWeight == 0 && txpool.BestT2S == nil && txpool.WorstT2S == nil
+		txpool.TxMutex.Unlock()
+		if !empty {
+			vfail("damaged-reload/"+where+"/failed-load-leaves-a-pool-behind", "after %s: MempoolLoad returned false but left state behind (%s; pool %v, saved pool was %v)", name, left, keysOf(after), keysOf(saved))
+		}
+	}
+	w.oracle(name)
+}
+
+func keysOf(m map[string]bool) []string {
+	var l []string
+	for k := range m {
+		l = append(l, k)
+	}
+	sort.Strings(l)
+	return l
 }
 
 func (w *world) submitQuiet(via, name string) string {
@@ -745,12 +867,15 @@ func (w *world) event(name string) {
 			vfail("reload-failed", "MempoolLoad refused the file MempoolSave had just written")
 		}
 		w.oracle(name)
+	case strings.HasPrefix(name, "reload-cut:"):
+		w.reloadDamaged(name)
 	case name == "list": // somebody asks for the fee-ordered listing (getmp, web UI, miner)
 		txpool.TxMutex.Lock()
 		l := txpool.GetSortedMempoolRBF()
 		txpool.TxMutex.Unlock()
 		w.checkListing(l, "GetSortedMempoolRBF", name)
-		w.step(name, fmt.Sprint(len(l), " txs"))
+		nf := w.checkFeeList(name)
+		w.step(name, fmt.Sprint(len(l), " txs, ", nf, " fee records"))
 		w.oracle(name)
 	default:
 		hfail("unknown event %q", name)
@@ -1005,6 +1130,16 @@ func (w *world) checkListing(l []*txpool.OneTxToSend, fn, after string) []string
 			vfail("listing-missing-tx/"+fn, "after %s: %s omits pooled %s; listing=%v", after, fn, w.nm(t.Hash.Hash[:]), names)
 		}
 	}
+	lspent := map[refchain.Outpoint]string{}
+	for _, t := range l {
+		for _, in := range t.TxIn {
+			o := op(in.Input.Hash, in.Input.Vout)
+			if other, dup := lspent[o]; dup {
+				vfail("listing-double-spend/"+fn, "after %s: %s lists %s and %s which spend the same output; listing=%v", after, fn, other, w.nm(t.Hash.Hash[:]), names)
+			}
+			lspent[o] = w.nm(t.Hash.Hash[:])
+		}
+	}
 	for i, t := range l {
 		for _, in := range t.TxIn {
 			if p, ok := pos[in.Input.Hash]; ok && p > i {
@@ -1014,6 +1149,49 @@ func (w *world) checkListing(l []*txpool.OneTxToSend, fn, after string) []string
 		}
 	}
 	return names
+}
+
+// checkFeeList: GetMempoolFees (fee statistics of the web UI / fee estimation, called as
+// client/usif does): every listed transaction is (that entry) in the pool, none is listed
+// twice, no two listed transactions spend the same output, and Fee / Weight of every record
+// equal the sums over its members.
+func (w *world) checkFeeList(after string) int {
+	txpool.TxMutex.Lock()
+	defer txpool.TxMutex.Unlock()
+	recs := txpool.GetMempoolFees(txpool.TransactionsToSendWeight)
+	seen := map[[32]byte]bool{}
+	spent := map[refchain.Outpoint]string{}
+	for ri, r := range recs {
+		var fee, wgt uint64
+		var names []string
+		for _, t := range r.Txs {
+			if t == nil {
+				vfail("feelist-nil-entry", "after %s: GetMempoolFees record %d holds a nil transaction", after, ri)
+			}
+			nm := w.nm(t.Hash.Hash[:])
+			names = append(names, nm)
+			if cur := txpool.TransactionsToSend[t.Hash.BIdx()]; cur != t {
+				vfail("feelist-not-pooled", "after %s: GetMempoolFees record %d %v lists %s which is not (that entry) in the pool", after, ri, names, nm)
+			}
+			if seen[t.Hash.Hash] {
+				vfail("feelist-duplicate", "after %s: GetMempoolFees lists %s twice", after, nm)
+			}
+			seen[t.Hash.Hash] = true
+			for _, in := range t.TxIn {
+				o := op(in.Input.Hash, in.Input.Vout)
+				if other, dup := spent[o]; dup {
+					vfail("feelist-double-spend", "after %s: GetMempoolFees lists %s and %s which spend the same output", after, other, nm)
+				}
+				spent[o] = nm
+			}
+			fee += t.Fee
+			wgt += uint64(t.Weight())
+		}
+		if r.Fee != fee || r.Weight != wgt {
+			vfail("feelist-fee-weight-mismatch", "after %s: GetMempoolFees record %v reports Fee/Weight %d/%d, its members sum to %d/%d", after, names, r.Fee, r.Weight, fee, wgt)
+		}
+	}
+	return len(recs)
 }
 
 // blockFromListing: what a miner does with the fee-ordered listing: take
@@ -1305,6 +1483,7 @@ func runJob(job *Job) (res *Result) {
 	l1 := txpool.GetSortedMempool()
 	txpool.TxMutex.Unlock()
 	w.checkListing(l1, "GetSortedMempool", "final")
+	w.checkFeeList("final")
 	b, names := w.blockFromListing(0x7f)
 	w.acceptListingBlock(b, names, "final block-from-listing")
 	w.oracle("final block-from-listing")
@@ -1470,19 +1649,22 @@ type scenario struct {
 	menu       []string
 	notFullRBF bool
 	small      bool // small state space: one level deeper in the thorough tier
+	thorough   bool // explored by BFS in the thorough tier only (the quick tier covers it with scripted histories)
 }
 
 var scenarios = []scenario{
-	{"rbf", []string{"net:T1", "net:T1lo", "net:T1eq", "net:T1hi", "loc:T1lo", "net:C1", "net:G", "net:R", "net:CLo", "mine:best", "mine:T1lo", "reorg:", "list"}, false, false},
-	{"graph", []string{"net:T1", "net:C1", "net:G", "net:T2", "net:D", "net:T1hi", "list", "mine:best", "mine:T1", "mine:T1,C1", "mine:T2", "reload"}, false, false},
-	{"reorgs", []string{"net:T1", "net:C1", "net:T2", "net:D", "mine:best", "mine:T1", "mine:T1,C1", "reorg:", "reorg:T1alt", "reorg:T1", "reorg2:"}, false, true},
-	{"orphans", []string{"net:O", "net:O2", "net:X", "loc:O", "tru:X", "net:B", "net:L", "net:OV", "spam", "resize", "mine:X", "mine:best", "reorg:", "reload", "tick"}, false, true},
-	{"limits", []string{"net:T1", "net:C1", "net:T2", "net:W", "fat", "adv13h", "tick", "limit", "mine:best", "reorg:", "reload", "list"}, false, false},
-	{"rbf100", []string{"net:T2", "chain", "net:T2hi", "tru:T2hi", "list", "mine:best", "reorg:", "reload"}, false, true},
-	{"rbf-own-parent", []string{"net:T1", "net:C1", "net:R", "net:R2", "net:R3", "tru:R2", "mine:best", "list", "reorg:"}, false, true},
-	{"levels", []string{"net:LG", "net:LP2", "net:LP1", "net:LC", "list", "mine:best", "mine:LG", "reorg:"}, false, true},
-	{"side", []string{"net:SR", "net:SQ", "net:TM", "net:CM2", "net:CS2", "list", "adv13h", "mine:T2"}, false, true},
-	{"final-rbf", []string{"net:T1", "net:T1hi", "tru:T1hi", "loc:T1hi", "net:C1", "mine:best", "mine:T1hi", "reorg:", "list"}, true, true},
+	{"rbf", []string{"net:T1", "net:T1lo", "net:T1eq", "net:T1hi", "loc:T1lo", "net:C1", "net:G", "net:R", "net:CLo", "mine:best", "mine:T1lo", "reorg:", "list"}, false, false, false},
+	{"graph", []string{"net:T1", "net:C1", "net:G", "net:T2", "net:D", "net:T1hi", "list", "mine:best", "mine:T1", "mine:T1,C1", "mine:T2", "reload"}, false, false, false},
+	{"reorgs", []string{"net:T1", "net:C1", "net:T2", "net:D", "mine:best", "mine:T1", "mine:T1,C1", "reorg:", "reorg:T1alt", "reorg:T1", "reorg2:"}, false, true, false},
+	{"orphans", []string{"net:O", "net:O2", "net:X", "loc:O", "tru:X", "net:B", "net:L", "net:OV", "spam", "resize", "mine:X", "mine:best", "reorg:", "reload", "tick"}, false, true, false},
+	{"limits", []string{"net:T1", "net:C1", "net:T2", "net:W", "fat", "adv13h", "tick", "limit", "mine:best", "reorg:", "reload", "list"}, false, false, false},
+	{"rbf100", []string{"net:T2", "chain", "net:T2hi", "tru:T2hi", "list", "mine:best", "reorg:", "reload"}, false, true, false},
+	{"rbf-own-parent", []string{"net:T1", "net:C1", "net:R", "net:R2", "net:R3", "tru:R2", "mine:best", "list", "reorg:"}, false, true, false},
+	{"levels", []string{"net:LG", "net:LP2", "net:LP1", "net:LC", "list", "mine:best", "mine:LG", "reorg:"}, false, true, false},
+	{"pkg-rbf", []string{"net:T1", "net:C1", "net:G", "net:G2", "net:C1x", "net:Gx", "net:G2x", "list", "adv13h", "tick"}, false, false, true},
+	{"badfile", []string{"net:T1", "net:C1", "net:T1hi", "net:O", "reload-cut:tx1", "reload-cut:tail5", "reload-cut:flip-end", "reload", "list"}, false, true, false},
+	{"side", []string{"net:SR", "net:SQ", "net:TM", "net:CM2", "net:CS2", "list", "adv13h", "mine:T2"}, false, true, false},
+	{"final-rbf", []string{"net:T1", "net:T1hi", "tru:T1hi", "loc:T1hi", "net:C1", "mine:best", "mine:T1hi", "reorg:", "list"}, true, true, false},
 }
 
 // Scripted histories: depth instead of breadth. Long deterministic histories that a BFS of
@@ -1492,6 +1674,10 @@ var scenarios = []scenario{
 //	       interleaving-rate transactions into one gap at the head, in the middle and at the tail
 //	       of the list (anchors none/high/low/both), then children with one parent inside the
 //	       run and one outside; with and without a listing between run and children
+//	pkg    chains of 3-4 with up-to-date fee packages, then replacement / expiry of the last or a
+//	       middle member (a non-root package member leaves the pool outside block processing)
+//	badfile the pool file is cut at every record-boundary class or has one byte changed where the
+//	       loader must notice, between save and load; then double spends / children / replacements
 //	side   CPFP child whose second parent sits at depth 1, 2, 3 of a low-rate unconfirmed chain,
 //	       parents first and children first, with a listing before and after every
 //	       package-rebuild trigger (connected block, undone block, 10-minute suspend, reload)
@@ -1511,6 +1697,40 @@ func scripts(thorough bool) (l []script) {
 				}
 			}
 		}
+	}
+	// pkg: chains of 3 and 4 with up-to-date fee packages (a listing within the last 10
+	// minutes), then a member that is NOT the package root leaves the pool outside block
+	// processing: replacement of the last / a middle member, expiry of the last / a middle member
+	for _, chain := range [][]string{{"T1", "C1", "G"}, {"T1", "C1", "G", "G2"}} {
+		var sub []string
+		for _, c := range chain {
+			sub = append(sub, "net:"+c)
+		}
+		cat := func(a []string, b ...string) []string { return append(append([]string{}, a...), b...) }
+		repl := []string{"net:" + chain[len(chain)-1] + "x", "net:" + chain[len(chain)-2] + "x", "net:C1x"}
+		for _, rp := range uniq(repl) {
+			l = append(l, script{"pkg", cat(sub, "list", rp)}, script{"pkg", cat(sub, rp)}, script{"pkg", cat(sub, "list", rp, "list", "mine:best")})
+		}
+		// expiry: everything but one member is re-announced half-way, the listing is taken just before the tick
+		for skip := 1; skip < len(chain); skip++ {
+			h := cat(sub, "adv13h")
+			for i, c := range chain {
+				if i != skip {
+					h = append(h, "net:"+c)
+				}
+			}
+			l = append(l, script{"pkg", cat(h, "adv13h", "list", "tick")}, script{"pkg", cat(h, "adv13h", "tick")})
+		}
+	}
+	// badfile: the pool file is damaged at every boundary class between save and load; afterwards
+	// double spends, children and a replacement arrive
+	for _, where := range []string{"hdr", "txmid", "tx1", "sections", "tail5", "flip-hdr", "flip-cnt", "flip-rejcnt", "flip-end"} {
+		pool := []string{"net:T1", "net:C1", "net:G", "net:O"}
+		cut := "reload-cut:" + where
+		l = append(l,
+			script{"badfile", append(append([]string{}, pool...), cut, "net:T1hi", "net:C1", "net:X", "list")},
+			script{"badfile", append(append([]string{}, pool...), "list", cut, "net:C1x", "net:G", "mine:best")},
+			script{"badfile", []string{"net:T2", cut, "net:T2hi", "reload"}})
 	}
 	for d := 1; d <= 3; d++ {
 		side := []string{"net:SR", "net:SQ", "net:SP"}[:d]
@@ -1553,10 +1773,7 @@ func (x *explorer) runScripts(l []script) {
 	r := x.r
 	res := make([]*Result, len(l))
 	var wg sync.WaitGroup
-	for i := range l {
-		if r.OverBudget() {
-			break
-		}
+	for i := range l { // deterministic part: not subject to the wall-clock budget
 		x.sem <- struct{}{}
 		wg.Add(1)
 		go func(i int) {
@@ -1858,14 +2075,14 @@ func main() {
 	}
 	var wg sync.WaitGroup
 	if f := os.Getenv("C12_SCENARIO"); f == "" || strings.Contains(","+f+",", ",scripted,") {
-		wg.Add(1)
-		go func() {
-			defer wg.Done()
-			x.runScripts(scripts(r.Thorough()))
-		}()
+		// the scripted histories run first, with all workers, before the budgeted BFS
+		x.runScripts(scripts(r.Thorough()))
 	}
 	for _, sc := range scenarios {
 		if f := os.Getenv("C12_SCENARIO"); f != "" && !strings.Contains(","+f+",", ","+sc.name+",") {
+			continue
+		}
+		if sc.thorough && !r.Thorough() && os.Getenv("C12_SCENARIO") == "" {
 			continue
 		}
 		wg.Add(1)
